@@ -172,6 +172,8 @@ def run(shard, ctx):
                       None, 0, 1, -1, 2.5, False, (), ("cat",), b"cat", frozenset()]  # keys need not be strings (csv / yaml readers produce None)
             values_ = [1, 0, None, False, True, "", "text", {}, [], b"", 3.5]
             forced = [(m, nm, vl) for m in (0, 1) for nm in names_ for vl in values_]
+            # names that belong one level further down (device type specific parameters), given beside the descriptor's own keys
+            forced += [(0, nm, vl) for nm in ("pad", "disk_block_length", "fixed", "stream_block_length") for vl in (0, 1, 512, None)] * 2
             for i in range(n * 3 + len(forced)):
                 a, _exp = DO.GEN[c.custom](rng, ("counts", rng.choice([1, 2]), rng.choice([1, 2]), 0))
                 kw = a["_kwargs"]
@@ -270,6 +272,15 @@ def run(shard, ctx):
             elif mode == 1:
                 del t["iscsi_initiator_session_id"]  # flag without session id
                 klass = "transportid.format_flag_without_isid"
+                r = rng.random()
+                if r < 0.3:
+                    # ... also when the name looks as if it carried one (as sg_persist prints initiator ports)
+                    t["iscsi_name"] = rng.choice([t["iscsi_name"][:40] + ",i,0x", t["iscsi_name"][:40] + ",i,0x%012x" % rng.getrandbits(48), ",i,0x", "iqn.1993-08.org.debian:01:ab,i,0x23d000000,i,0x"])
+                    ctx.count("transportid_names_with_separator")
+                elif r < 0.5:
+                    t["iscsi_initiator_session_id"] = rng.choice([None, "", 0])  # given, but empty
+                if rng.random() < 0.3:
+                    t["tpid_format"] = rng.choice([True, 1, harness.IntSub(1)])
             else:
                 del t["tpid_format"]
                 klass = "transportid.isid_without_format_flag"
@@ -335,10 +346,23 @@ def attached_without_blocksize(ctx, rng, names):
         return next((n for n in ("spc", "sbc", "ssc", "smc", "mmc") if dev.opcodes is getattr(E, n)), "?")
 
     for devtype in range(32):
-        for how in ("SCSI(dev)", "SCSI(dev, 0)", "re-attached"):
+        for how in ("SCSI(dev)", "SCSI(dev, 0)", "re-attached", "second facade", "second facade, first one used"):
             dev = device(devtype)
             try:
-                if how == "SCSI(dev)":
+                if how.startswith("second facade"):
+                    # another user of the same device object has a block size of his own (given at attach, or set later)
+                    other = SCSI(dev, rng.choice([512, 4096])) if rng.random() < 0.5 else SCSI(dev)
+                    other.blocksize = rng.choice([512, 520, 4096])
+                    if how.endswith("used"):
+                        try:
+                            dev.opcodes = E.sbc
+                            other.read10(0, 1)
+                            other.write16(8, 1, bytearray(other.blocksize))
+                        except Exception:  # noqa: BLE001
+                            pass
+                    s = SCSI(dev) if rng.random() < 0.5 else SCSI(dev, 0)
+                    ctx.count("second_facades_without_blocksize")
+                elif how == "SCSI(dev)":
                     s = SCSI(dev)
                 elif how == "SCSI(dev, 0)":
                     s = SCSI(dev, 0)
